@@ -183,7 +183,7 @@ class LoopMixin:
             self.fire("loop_iter", header, k)
             if not hasattr(self, "loop_heads"):
                 self.loop_heads, self.iter_call_start = [], [0]
-            self.loop_heads.append(dict(self.visible_locals(frame)))
+            self.loop_heads.append((dict(self.visible_locals(frame)), run.snapshot()))
             self.iter_call_start.append(len(run.calls))
             how = "normal"
             try:
@@ -319,6 +319,24 @@ class LoopMixin:
                 return cc
         return None
 
+    def callee_acquires(self, fnode, ci, seen=None):
+        """lock paths `self.<x>` taken by `with` in the callee body or in same-class methods it calls (syntactic, transitive)"""
+        seen = set() if seen is None else seen
+        out = []
+        for n in ast.walk(fnode):
+            if isinstance(n, ast.With):
+                for it in n.items:
+                    s_ = ast.unparse(it.context_expr)
+                    if s_.startswith("self.") and "lock" in s_.lower():
+                        out.append(s_)
+            if isinstance(n, ast.Call) and isinstance(n.func, ast.Attribute) and isinstance(n.func.value, ast.Name) \
+                    and n.func.value.id == "self" and ci is not None and n.func.attr not in seen:
+                seen.add(n.func.attr)
+                m = self.repo.lookup_method(ci, n.func.attr)
+                if m is not None:
+                    out.extend(self.callee_acquires(m[0], m[1], seen))
+        return sorted(set(out))
+
     def call_by_contract(self, cc, recv, args, kwargs):
         run = self.run
         V = self.verifier
@@ -329,6 +347,18 @@ class LoopMixin:
         sframe = E.Frame("<spec>", ci, dict(locs), None, "callee-spec")
         for i, ex in enumerate(cc.requires):
             self.ctx.oblige(self, "call-pre", f"{qual}#{i}", V.eval_bool(self, ex, sframe), "", False, text=ex)
+        # a callee that takes a non-reentrant lock must not be called while that lock is held (the call would never return)
+        for lp in self.callee_acquires(fnode, ci):
+            try:
+                lv = self.eval(ast.parse(lp, mode="eval").body, sframe)
+            except (E.Unsupported, E.PyExc):
+                continue
+            if isinstance(lv, VRef) and lv.kind == "lock":
+                lrec = run.rec(lv.oid)
+                if lrec.kind == "Lock":
+                    self.ctx.oblige(self, "lock-reentry", f"{qual}:{lp}", lrec.held == 0,
+                                    f"{qual} acquires the non-reentrant {lp}, which the caller already holds", False,
+                                    text=f"call of {qual} with {lp} not held")
         self.fire("contract_call", cc, recv, args, kwargs)
         saved_old, saved_locals = run.old_heap, getattr(self, "old_locals", {})
         run.old_heap = run.snapshot()
